@@ -218,6 +218,11 @@ def wmutex(ctx):
                 continue
             la = eng.locks(f)
             acq = [e for e in la.acquire_events if e[2].mutex == "this.m_write_mutex"]
+            if len(common.rcu_writer_mutexes(ctx)) > 1:
+                acq_any = [e for e in la.acquire_events if e[2].mutex in ["this." + m for m in common.rcu_writer_mutexes(ctx)] and
+                           e[3] is True and e[2].mode == "X"]
+                ctx.ob(rid, bool(acq_any), f.where, "%s takes one of the writer mutexes, blocking, exclusive" % nm, "", fn=f.label, inst=f.qname)
+                continue
             ok = len(acq) == 1 and acq[0][3] is True and acq[0][2].mode == "X"
             ctx.ob(rid, ok, f.where, "%s takes m_write_mutex once, blocking, exclusive" % nm,
                    "" if ok else str([(e[3], e[2].mode) for e in acq]), fn=f.label, inst=f.qname)
@@ -252,7 +257,8 @@ def reentrancy_rule(ctx, rid):
                 ctx.unknown("%s: %s: cannot find the allocate_unique call of %s" % (rid, f.where, nm))
                 continue
             early = [op for op in atomic_ops(f) if op["op"] == "load" and atomic_field_of(f, op) in ((RCU, "m_head"), (RCU, "m_tail"))
-                     and f.pos_of(op["st"]) and f.reach_avoiding(f.pos_of(op["st"]), f.pos_of(mk[0]), [])]
+                     and f.pos_of(op["st"]) and f.reach_avoiding(f.pos_of(op["st"]), f.pos_of(mk[0]), [])
+                     and common.load_feeds_store(f, op)]        # (an end only LOOKED at - a lock decision, a size hint - links nothing)
             ctx.ob(rid, not early, f.loc(early[0]["st"]) if early else f.where,
                    "%s samples the ends of the list after the user constructor ran" % nm,
                    "" if not early else "%s is read before the element is constructed and used afterwards: a constructor that "
@@ -304,7 +310,8 @@ def publish(ctx, rid="C12.publish", reentrancy=True):
                     # supported): the ends of the list must be read after it ran
                     early = [] if call_pos is not None else \
                         [e for e in ev if e["k"] == "aload" and e["fld"] in ((RCU, "m_head"), (RCU, "m_tail")) and
-                         f.reach_avoiding(e["pos"], f.pos_of(mk[0]), [])]
+                         f.reach_avoiding(e["pos"], f.pos_of(mk[0]), []) and
+                         common.load_feeds_store(f, dict(st=e["st"]))]
                     if call_pos is not None:
                         # linking code in a helper: nothing in the insertion function may read the ends before the call
                         early = [dict(obj=op["obj"], st=op["st"]) for op in atomic_ops(f0) if op["op"] == "load" and
